@@ -157,6 +157,60 @@ pub fn run(ctx: &Ctx) -> i32 {
     });
     ctx.eval(56404);
     ctx.cov("K_values_enumerated", J::s("all of 0..=56403"));
+    // (1b) the look-ups are functions of K alone: the same answers in hostile query orders (descending,
+    // jumping between neighbouring table rows, random), on one thread and on all threads at once
+    let order_queries = AtomicU64::new(0);
+    let kps: Vec<u32> = TABLE2.iter().map(|r| r.0).collect();
+    par_for(threads().max(2), |t| {
+        let mut n = 0u64;
+        if t == 0 {
+            for K in (0..=56403u32).rev() {
+                check_params(ctx, K);
+                n += 1;
+            }
+        } else if t == 1 {
+            // every ordered pair of queries (a, b) with a in row r and b the last / first element of a
+            // neighbouring row, and the row's own ends
+            for r in 0..kps.len() {
+                let lo = if r == 0 { 0 } else { kps[r - 1] + 1 };
+                let hi = kps[r];
+                let mut probes = vec![lo, hi, (lo + hi) / 2];
+                probes.dedup();
+                let mut targets = vec![];
+                if r > 0 {
+                    targets.push(kps[r - 1]);
+                    targets.push(if r > 1 { kps[r - 2] + 1 } else { 0 });
+                    targets.push(kps[r - 1].saturating_sub(1));
+                }
+                if r + 1 < kps.len() {
+                    targets.push(kps[r] + 1);
+                    targets.push(kps[r + 1]);
+                }
+                for &a in &probes {
+                    for &b in &targets {
+                        check_params(ctx, a);
+                        check_params(ctx, b);
+                        check_params(ctx, a);
+                        n += 3;
+                    }
+                }
+            }
+        } else {
+            let mut rng = Rng::derive(ctx.seed(), 1516, t as u64);
+            for _ in 0..ctx.args.pick(60_000u64, 600_000) {
+                let K = match rng.below(3) {
+                    0 => *rng.pick(&kps),
+                    1 => (*rng.pick(&kps) + 1).min(56403),
+                    _ => rng.below(56404) as u32,
+                };
+                check_params(ctx, K);
+                n += 1;
+            }
+        }
+        order_queries.fetch_add(n, Relaxed);
+    });
+    ctx.eval(order_queries.load(Relaxed) as usize);
+    ctx.cov("parameter_queries_in_hostile_orders_(descending,_row_jumps,_random)", J::i(order_queries.load(Relaxed)));
     // (2) tuples
     let bad = AtomicU64::new(0);
     let n_tuples = AtomicU64::new(0);
@@ -258,7 +312,7 @@ pub fn run(ctx: &Ctx) -> i32 {
     ctx.floor("tuples_checked_floor", nt, 1_000_000);
     let _ = bad;
     ctx.finish(
-        "(1) every K in 0..=56403: K' = least table size >= K, S and W prime, P1 = least prime >= P, B >= 1, P >= H >= 2, L < 65536, and the crate's parameter functions equal Table 2; (2) Tuple[K',X] from the crate = RFC 5.3.5.4 computed in u64 and in range, for (quick) the first and last 5000 X, 20000 random X and the algebraically derived overflow-sensitive X of every K' / (thorough) every X in 0..2^24+K' for all 477 K'; all 1024 entries of V0..V3 probed through rand; (3) repair packets for the overflow-sensitive ISIs and ESI 2^24-1 are produced, equal Enc with the reference tuple, and are consumed by the decoder without panic. Run in the release build and again in the checked build (debug assertions + overflow checks)",
+        "(1) every K in 0..=56403 (ascending per thread, then again descending, as row-jumping pairs around every table boundary and in random order, because the look-ups must be functions of K alone): K' = least table size >= K, S and W prime, P1 = least prime >= P, B >= 1, P >= H >= 2, L < 65536, and the crate's parameter functions equal Table 2; (2) Tuple[K',X] from the crate = RFC 5.3.5.4 computed in u64 and in range, for (quick) the first and last 5000 X, 20000 random X and the algebraically derived overflow-sensitive X of every K' / (thorough) every X in 0..2^24+K' for all 477 K'; all 1024 entries of V0..V3 probed through rand; (3) repair packets for the overflow-sensitive ISIs and ESI 2^24-1 are produced, equal Enc with the reference tuple, and are consumed by the decoder without panic. Run in the release build and again in the checked build (debug assertions + overflow checks)",
         &["Table 2, V0..V3 and the degree thresholds from the golden copy", "reference Rand/Deg/Tuple in u64 arithmetic"],
         vec![("exhaustive", J::B(exhaustive))],
     )
